@@ -356,8 +356,11 @@ def run(mod, tier, replay=None, procs=None):
     if results:
         picks = sorted({0, len(results) // 2, len(results) - 1})
         for i in picks:
-            samples.append({"config": results[i]["cfg"], "observations_validated": results[i]["validated"],
-                            "worst_margin": _fin(results[i]["worst"])})
+            smp = {"config": results[i]["cfg"], "observations_validated": results[i]["validated"],
+                   "worst_margin": _fin(results[i]["worst"])}
+            if results[i].get("notes", {}).get("_samples"):
+                smp["traces"] = results[i]["notes"]["_samples"]
+            samples.append(smp)
         if worst is not None:
             samples.append({"worst_margin_config": worst["cfg"], "worst_margin": _fin(worst["worst"]),
                             "observation": worst["worst_name"]})
